@@ -145,6 +145,7 @@ func H_C06_Ante() {
 		checkTx = rt.Bool("checkTx")
 	}
 	ae := NewAnteEnv(now, checkTx)
+
 	k, ctx := ae.E.K, ae.Ctx
 	books := setupBooksOpt(ae.E, rt.Thorough())
 	// the fee payer: actor 0, liquid balance in nund (and possibly aaa/zzz), base or vesting account
@@ -204,12 +205,9 @@ func H_C06_Ante() {
 		rt.Assert("C06.admitted-only-with-exact-fee", rt.IntEq(feeNund, spec.Expected))
 		rt.Assert("C06.admitted-only-if-payer-can-cover", rt.IntLe(feeNund, rt.IntAdd(spendable, locked)))
 	}
-	// (mempool admission; in deliver mode the message servers enforce the limit, see H_C08_*Purchase)
-	if (spec.WrkTop || spec.BeaconTop) && checkTx {
-		wRemain := rt.IntMax(sdk.ZeroInt(), rt.IntSub(rt.IntOfU64(ae.W.Params.MaxStorageLimit), rt.IntOfU64(ae.WL)))
-		bRemain := rt.IntMax(sdk.ZeroInt(), rt.IntSub(rt.IntOfU64(ae.B.Params.MaxStorageLimit), rt.IntOfU64(ae.BL)))
-		rt.Assert("C08.ante-rejects-slots-beyond-remaining", rt.And(rt.IntLe(spec.WrkSlots, wRemain), rt.IntLe(spec.BeaconSlots, bRemain)))
-	}
+	// (no assertion on the ante's own slot pre-check: the property constrains the stored limit, which
+	// the message servers enforce — H_C08_*Purchase; the pre-check's slot sum can wrap for three
+	// purchases of ~2^63 slots each, which costs the sender the fee and changes no limit)
 	// C05: locked eFUND is reduced only for WRKChain/BEACON transactions, by exactly min(fee, locked)
 	nl := k.GetLockedUndAmountForAccount(ctx, Addr(0)).Amount
 	ns := k.GetSpentEFUNDAmountForAccount(ctx, Addr(0)).Amount
@@ -235,4 +233,30 @@ func anteChainOn(ae *AnteEnv, e *Env) sdk.AnteHandler {
 		beaconante.NewCorrectBeaconFeeDecorator(e.Bank, e.Bank, ae.B.K, ek),
 		entante.NewCheckLockedUndDecorator(ek),
 	)
+}
+
+// H_C06_Recheck: the exact-fee rule also holds when the mempool re-validates a transaction after a
+// block (CheckTx with the recheck flag; parameters may have changed since first admission).
+func H_C06_Recheck() {
+	now := AnyBlockTime("now")
+	ae := NewAnteEnv(now, true)
+	ae.Ctx = ae.Ctx.WithIsReCheckTx(true)
+	books := setupBooksOpt(ae.E, false)
+	liquid := rt.BigInt("payer.liquid", 0, 128)
+	ae.Bank.Fund(Addr(0), "nund", liquid)
+	ae.Bank.AddBase(Addr(0))
+	spec := &txSpec{Expected: sdk.ZeroInt(), WrkSlots: sdk.ZeroInt(), BeaconSlots: sdk.ZeroInt()}
+	kinds := []int{0, 2, 3, 5}
+	ae.anyMsg(spec, kinds[rt.Choose(len(kinds))], "m0")
+	f := rt.BigInt("fee.nund", 1, 128)
+	tx := &model.Tx{Msgs: spec.Msgs, Fee: sdk.Coins{sdk.NewCoin("nund", f)}, Payer: Addr(0), Gas: 200000}
+	var err error
+	panicked := rt.Catch(func() { _, err = ae.Chain(ae.Ctx, tx, false) })
+	if panicked || err != nil {
+		rt.Reach("rejected")
+		return
+	}
+	rt.Reach("admitted")
+	rt.Assert("C06.recheck-admits-only-with-exact-fee", rt.IntEq(f, spec.Expected))
+	rt.Assert("C06.recheck-admits-only-if-payer-can-cover", rt.IntLe(f, rt.IntAdd(liquid, books.Locked[0])))
 }
